@@ -7,21 +7,27 @@ RULE = ('one case = a crash-free seeded history of snapshot / delete / clean by 
         'over file sets with engineered overlap (identical files, shared aligned prefixes / suffixes, repeated blocks) at '
         'concurrency 1..4; after every command the independent reader computes, per key family, the set of chunk objects and '
         'the set of distinct chunks referenced by remaining snapshots (must be equal; families must not share names), and the '
-        'operation journal of each snapshot must show no upload of a chunk object that already existed. '
+        'operation journal of each snapshot must show no upload of a chunk object that already existed, and no upload at all when the '
+        'file set equals that of a live snapshot of the same family (directory enumeration order is re-drawn for every walk). '
         'distinct_nontrivial = distinct event-log digests among histories with >= 1 snapshot')
 COMPONENTS = {
     'real': ['replicat.repository.Repository', 'replicat.utils.adapters (chunker, MAC names)', 'src/adapters.cpp (shim build)'],
     'stub': ['OS thread scheduling', 'clocks', 'os.urandom', 'object store (SimStore)'],
     'reference': ['sim/ref_format.py', 'sim/history.py model'],
 }
-ASSUMPTIONS = ['crash-free histories', 'duplicate transfers of one chunk by two concurrent workers inside one snapshot are not counted (objects, not transfers)']
+ASSUMPTIONS = ['crash-free histories', 'max_length is a multiple of the alignment (otherwise see the C10 known finding)', 'directory enumeration order changes between snapshots (seeded)', 'duplicate transfers of one chunk by two concurrent workers inside one snapshot are not counted (objects, not transfers)']
 PROBES = ['delete', 'clean']
 TIERS = {'quick': {'budget_s': 70, 'batch': 10}, 'thorough': {'budget_s': 900, 'batch': 20}}
 ORACLES = ('store', 'exact', 'dedup')
 
 
 def gen_case(seed, tier):
-    return history.gen_history(seed, 'c07', nops=(3, 10), destructive=True, overlap=False, reads=False)
+    case = history.gen_history(seed, 'c07', nops=(3, 10), destructive=True, overlap=False, reads=False)
+    # with max_length % 4 != 0 the chunker reads past its buffer and boundaries depend on adjacent memory
+    # (known finding C10-oob-unaligned-max); deduplication is judged on configurations where chunking is a function of the data
+    ch = case['settings']['chunking']
+    ch['max_length'] = (ch['max_length'] + 3) & -4
+    return case
 
 
 def run_case(case):
